@@ -184,12 +184,9 @@ func (e *UtlsPreSharedKeyExtension) Len() int {
 	if e.Session == nil {
 		return 0
 	}
-	if e.cachedLength != nil {
-		return *e.cachedLength
-	}
-	length := pskExtLen(e.Identities, e.Binders)
-	e.cachedLength = &length
-	return length
+	// Not memoised: the identities and binders are exported fields and Read
+	// encodes their current values.
+	return pskExtLen(e.Identities, e.Binders)
 }
 
 func readPskIntoBytes(b []byte, identities []PskIdentity, binders [][]byte) (int, error) {
